@@ -51,6 +51,7 @@ it like any other sub-sequence.
 
 import itertools
 import math
+from fractions import Fraction
 
 INF = 'inf'
 
@@ -125,6 +126,24 @@ def k_mod(a, b):
     return a - b * math.floor(a / b)
 
 
+def _quantise(name):
+    """SC `round`/`roundUp`/`trunc` (SimpleNumber help: "round to a multiple
+    of aNumber", "round up to ...", "truncate to ..."); the generator keeps
+    the quantum a positive int or dyadic and the values small, so the float
+    arithmetic below is exact. The library returns floats."""
+    pick = {'round': lambda q: math.floor(q + Fraction(1, 2)),
+            'roundup': math.ceil, 'trunc': math.floor}[name]
+
+    def k(a, b):
+        if abs(a) > 2 ** 40 or abs(b) > 2 ** 40:
+            raise Undecided('quantising huge numbers (numeric kernels: C15)')
+        if b <= 0:
+            raise Undecided('quantum not positive')
+        r = Fraction(a) / Fraction(b)
+        return float(pick(r) * Fraction(b))
+    return k
+
+
 def k_wrap(x, lo, hi):
     """SimpleNumber:wrap(lo, hi): "wrap the receiver into the range lo..hi";
     for an Integer receiver hi is inclusive, for a Float the range is
@@ -176,6 +195,9 @@ BINOPS = {
     'ge': lambda a, b: a >= b,
     'eq': lambda a, b: a == b,
     'ne': lambda a, b: a != b,
+    'round': _quantise('round'),
+    'roundup': _quantise('roundup'),
+    'trunc': _quantise('trunc'),
 }
 
 NAROPS = {
